@@ -149,15 +149,16 @@ def padded_extrema(x, kind='peaks', pad_width=2, parabolic_extrema=False, loc_pa
     M = np.pad(mags, pw, mmode, **mo)
     guard = 0
     tol = 1e-9 * x.size
-    while L.max() < x.size or L.min() >= 0:
-        if parabolic_extrema and (abs(L.max() - x.size) <= tol or abs(L.min()) <= tol):
+    # both record ends must be covered: first location < 0 and, mirror-symmetrically, last location > N-1
+    while L.max() <= x.size - 1 or L.min() >= 0:
+        if parabolic_extrema and (abs(L.max() - (x.size - 1)) <= tol or abs(L.min()) <= tol):
             KNIFE[0] += 1      # the decision to pad once more hangs on rounding of a refined location
         L = np.pad(L, pw, lmode, **lo)
         M = np.pad(M, pw, mmode, **mo)
         guard += 1
         if guard > 10000:
             raise RuntimeError('padding does not reach the record ends')
-    if parabolic_extrema and (abs(L.max() - x.size) <= tol or abs(L.min()) <= tol):
+    if parabolic_extrema and (abs(L.max() - (x.size - 1)) <= tol or abs(L.min()) <= tol):
         KNIFE[0] += 1
     return L, M
 
